@@ -37,3 +37,20 @@ class Comment(models.Model):
     score = models.IntegerField()
     flag = models.BooleanField(default=False)
     post = models.ForeignKey(Post, null=True, on_delete=models.CASCADE, related_name="comments")
+
+
+# ---- alternate schema shapes (C04 layer "alternate-schema"): a foreign key that targets a unique non-primary-key column (to_field),
+# a child model whose only manager is not called `objects`, and the reverse side of a one-to-one
+class Node(models.Model):
+    code = models.CharField(max_length=5, unique=True)
+
+
+class Item(models.Model):
+    name = models.CharField(max_length=5)
+    node = models.ForeignKey(Node, to_field="code", null=True, on_delete=models.CASCADE, related_name="items")
+    rows = models.Manager()
+
+
+class Extra(models.Model):
+    note = models.CharField(max_length=5)
+    node = models.OneToOneField(Node, on_delete=models.CASCADE, related_name="extra")
